@@ -323,6 +323,13 @@ def bounded_integer_containers(which):
         # tile(scaling='sum') spreads each sample over its block (total conserved); tile(scaling='avg') repeats the level
         check('tile-sum-conserves-the-total', bool(np.isclose(float(np.asarray(ts, dtype=float).sum()), float(small.astype(float).sum()), rtol=1e-5)))
         check('tile-avg-repeats-the-level', bool((np.asarray(ta)[::fy, ::fx] == small).all() and np.asarray(ta).shape == (small.shape[0] * fy, small.shape[1] * fx)))
+        # frames whose total is zero (a dark frame, a zero-mean residual, a signed checkerboard): linear maps, same statements
+        zi, zj = np.mgrid[:small.shape[0], :small.shape[1]]
+        for tag, zf in (('dark', np.zeros(small.shape)), ('checkerboard', ((zi + zj) % 2 * 2.0 - 1.0) * (1 if small.size % 2 == 0 else 0)),
+                        ('zero-mean', (lambda r_: r_ - r_.mean())(rng.standard_normal(small.shape)))):
+            tz = det.tile(zf, (fy, fx), scaling='sum')
+            check('tile-sum-of-a-zero-total-frame-' + tag, bool(np.isfinite(tz).all() and np.allclose(det.bindown(tz, (fy, fx), mode='sum'), zf, atol=1e-12)
+                                                                and np.allclose(tz[::fy, ::fx] * (fy * fx), zf, atol=1e-12)))
         # adjointness on these containers: <bindown_sum(a), y> = <a, tile_avg(y)>  (tile_avg = repeat)
         yv = rng.integers(0, 5, size=bs.shape)
         lhs = sum(int(b) * int(v) for b, v in zip(np.asarray(bs, dtype=object).ravel(), yv.ravel())) if np.issubdtype(dt, np.integer) else float((bs.astype(float) * yv).sum())
@@ -351,3 +358,20 @@ def bounded_integer_containers(which):
         check('unsigned-container-wide-enough', bool(out.dtype.kind == 'u' and np.iinfo(out.dtype).max >= 2 ** bits - 1))
         check('DN-in-range-on-real-containers', bool(out.min() >= 0 and int(out.max()) <= 2 ** bits - 1))
         check('shape', out.shape == img.shape)
+        # pixels far above the ADC range read exactly 2^bits - 1 (the clipped, gain-scaled signal) for every bit depth 1..32 and
+        # every gain, dyadic or not: the clip is on the digital number, so rounding in the gain scaling cannot leave it one short
+        b2 = int(rng.integers(1, 33))
+        g2 = float(rng.choice([1.3, 4.9, 0.7, 0.35, 3.3, 0.05, float(rng.uniform(0.05, 8))]))
+        cap = 2 ** b2 - 1
+        level = max(cap * g2 * float(rng.choice([1.5, 4.0, 50.0])), 1e4)      # >= 1e4 electrons: shot noise cannot bring it near the cap
+        sat = det.Detector(dark_current=0.0, read_noise=0.0, bias=0.0, fwc=level * 1e3, conversion_gain=g2, bits=b2, exposure_time=1.0)
+        hot = np.full((3, 4), level)
+        hot[0, 0] = 0.0
+        dn = sat.expose(hot)
+        check('saturated-pixels-read-exactly-full-scale', bool((dn[hot > 0] == cap).all() and int(dn[0, 0]) == 0))
+        # signal above the full well but inside the ADC range: the well clips first, the reading is fwc / gain to the unit
+        fwc3 = float(rng.integers(10, 2000))
+        g3 = float(rng.choice([1.0, 0.5, 2.0, 0.25]))
+        well = det.Detector(dark_current=0.0, read_noise=0.0, bias=0.0, fwc=fwc3, conversion_gain=g3, bits=32, exposure_time=1.0)
+        dnw = well.expose(np.full((2, 3), fwc3 * 40.0 + 1e4))
+        check('full-well-clips-before-the-adc', bool((dnw == int(fwc3 / g3)).all()))
